@@ -32,7 +32,26 @@ Tie to the current source, every run:
       by eta*max(|min|,|max|,|pos|), eta = 1e-9 double / 1e-4 float).  Every flip is classified by
       function, direction and CAUSE (all-components-fail-guard | box-face-at-TMAX |
       face-minus-pos-overflows | other-*) and reported under the key guard-sweep:<class>; the
-      canonical witness of a class is its first flip in block order (deterministic blocks first)."""
+      canonical witness of a class is its first flip in block order (deterministic blocks first).
+      The zero direction is part of the sweep.  ON THE SAME INPUTS:
+      (c1) the MODEL is executed at Float / Float32 by the Lean driver (same operations, same order, IEEE
+           inf/NaN semantics) and compared BIT FOR BIT with the real code (results always, points when true):
+           this ties every branch arm of the model - including the 18 guard-FAIL arms that no lattice with
+           T = DBL_MAX reaches - to the code, so the `_guardpath` theorems are statements about the code;
+      (c2) every reported point is classified by the harness (in the closed box and on a face / never
+           written / NaN / outside): "every reported point lies in the box, on its surface" needs no oracle;
+      (c3) the 2-argument wrapper must agree with the 3-argument form on every case;
+      (c4) per-class flip counts of the deterministic `fixed-*` blocks are pinned (PINNED below): a count
+           above its pin is a violation even when the class itself is an open known finding;
+  (d) guard lattice at a SMALL TMAX: the real templates instantiated at a wrapper scalar `Small` with
+      numeric_limits<Small>::max() == 4, directions {0,+-1/8,+-1/2,+-1,+-2}^3 (zero direction included), dyadic
+      origins/boxes of magnitude <= 6: all arithmetic exact, all guard-fail arms reached (hit counts obliged),
+      outputs compared EXACTLY with the model over Rat at T = 4; the model is also compared with an executable
+      interval form of the `_guardpath` theorems and, where every guard as written passes, with the geometric
+      oracle restricted to |t| <= T (`_iff_window`);
+  (e) "on the ray to within rounding": on the non-dyadic lattice the distance of every reported point of the
+      floating-point run (model@Float, bit-identical to the real code by (a')) from the EXACT entry / exit /
+      first-contact point is measured in units of eps*max(1,|box|,|pos|) and bounded (residue)."""
 import os, re, math
 import lib
 
@@ -44,7 +63,11 @@ REQUIRED = ["findEntryAndExitPoints_empty", "intersects_empty",
             "findEntryAndExitPoints_iff", "intersects_iff", "intersectsBool_iff",
             "intersects_ip_inside", "intersects_ip_first_contact", "findEntryAndExitPoints_points",
             "findEntryAndExitPoints_guard_miss_witness", "findEntryAndExitPoints_guard_falsehit_witness",
-            "intersects_guard_falsehit_witness", "findEntryAndExitPoints_overflow_witness"]
+            "intersects_guard_falsehit_witness", "findEntryAndExitPoints_overflow_witness",
+            "intersects_ip_in_box_always", "findEntryAndExitPoints_points_in_box",
+            "findEntryAndExitPoints_unwritten", "findEntryAndExitPoints_unwritten_zero_dir",
+            "intersects_false_hit_only_if", "findEntryAndExitPoints_false_hit_only_if",
+            "findEntryAndExitPoints_unwritten_witness"]
 
 # per-axis (min,max) pairs; boxes = pairs^3.  (1,0) is inverted (empty box), (a,a) flat.
 QUICK_PAIRS = "-1:1,0:2,1:1,1:0,-1:0"
@@ -195,6 +218,7 @@ def run_lattice(chk, binary, pairs, off, name):
     return not allbad and not bad["model_vs_spec"]
 
 
+ND_RESIDUE_BOUND_MILLI = 2000    # calibrated: 0.888 at double and float on the quick and thorough lattices
 ND_QUICK_BOXES = "0,0,0,1,1,1;0,0,-1,2,1,1;0,0,0,0,1,2;1,1,1,1,1,1"          # cube, slab, flat (x), single point
 ND_THOROUGH_BOXES = ND_QUICK_BOXES + ";-1,-1,-1,1,1,1;0,0,0,0,0,2;-2,0,1,1,3,1;1,0,0,0,1,1"  # + cube, segment, flat (z), inverted
 
@@ -238,9 +262,12 @@ def run_nd(chk, binary, boxes, R, off, name):
     okshape = len(impl) == nblk and len(mod) == nblk
     bad = {"model_d": [], "model_f": [], "oracle_d": [], "oracle_f": []}
     nfe = nis = ngr = 0
+    res64 = res32 = npts = 0
     if okshape:
         for i, (x, y) in enumerate(zip(impl, mod)):
-            # x: blk tieD tieF boolD boolF nFe nIs ; y: blk tie64 tie32 boolsOracle nFe nIs nGraze
+            # x: blk tieD tieF boolD boolF nFe nIs ; y: blk tie64 tie32 boolsOracle nFe nIs nGraze res64 res32 nPts
+            if len(y) >= 10:
+                res64, res32, npts = max(res64, int(y[7])), max(res32, int(y[8])), npts + int(y[9])
             if x[1] != y[1]: bad["model_d"].append(i)
             if x[2] != y[2]: bad["model_f"].append(i)
             if x[3] != y[3]: bad["oracle_d"].append(i)
@@ -251,6 +278,19 @@ def run_nd(chk, binary, boxes, R, off, name):
     chk.oblige("corr:%s:exact-oracle=impl(float):hit/miss" % name, "correspondence", okshape and not bad["oracle_f"])
     chk.oblige("corr:%s:model@Float=impl(double):bit-for-bit" % name, "correspondence", okshape and not bad["model_d"])
     chk.oblige("corr:%s:model@Float32=impl(float):bit-for-bit" % name, "correspondence", okshape and not bad["model_f"])
+    # (e) "on the ray to within rounding": reported points of the floating-point run vs the exact points
+    okres = okshape and npts > 0 and res64 <= ND_RESIDUE_BOUND_MILLI and res32 <= ND_RESIDUE_BOUND_MILLI
+    chk.oblige("residue:%s:reported-points-within-%g-eps-of-exact-point(double,float)" % (name, ND_RESIDUE_BOUND_MILLI / 1000.0),
+               "residue", okres, None if okres else {"max_double": res64 / 1000.0, "max_float": res32 / 1000.0, "points": npts})
+    chk.residues["on_ray_" + name] = {"unit": "eps * max(1, |box coords|, |pos coords|), eps = 2^-52 / 2^-23",
+                                      "max_double": res64 / 1000.0, "max_float": res32 / 1000.0, "points_measured": npts,
+                                      "bound": ND_RESIDUE_BOUND_MILLI / 1000.0,
+                                      "note": "measured on model@Float/Float32, bit-identical to the real code by the tie obligation"}
+    if okshape and not okres:
+        chk.fail("residue:%s" % name, "nd:residue:reported-point-off-the-exact-point",
+                 "a reported point is further than %g eps*scale from the exact entry/exit/first-contact point (max double %g, float %g)"
+                 % (ND_RESIDUE_BOUND_MILLI / 1000.0, res64 / 1000.0, res32 / 1000.0),
+                 {"max_double": res64 / 1000.0, "max_float": res32 / 1000.0, "points": npts}, False)
     chk.count(2 * ncases, nfe + nis)
     chk.extra.setdefault("nondyadic_lattice", {})[name] = {
         "boxes": boxes, "origin_radius": R, "offset": off[:3], "cases": ncases, "line_hits": nfe, "ray_hits": nis,
@@ -334,16 +374,63 @@ def flip_replay(binary, line):
 SWEEP_OBLIGS = ["findEntryAndExitPoints:hit-to-miss", "findEntryAndExitPoints:miss-to-hit",
                 "intersects:hit-to-miss", "intersects:miss-to-hit"]
 
+# (c4) Pinned per-class counts of the DETERMINISTIC blocks (seed-independent).  A count above its pin is a violation
+# although the class may be an open known finding (new flips inside an already-open class are not silent); a count
+# below its pin (a fix in /repo) is recorded in chk.extra and the pin should then be lowered.
+# Regenerate: PYTHONPATH=tools python3 tools/props/c14.py   (prints this table from the current tree; review before pasting).
+PINNED = {}   # replaced by the generated table at the end of this file
+
+
+def tie_first_diff(chk, binary, ft, blk, chunk):
+    """First case of a sweep chunk where the real code differs from the model executed in floating point."""
+    tier = "thorough" if chk.thorough else "quick"
+    rc, a = lib.sh([binary, "sweeplines", ft, str(chk.seed), tier, str(blk), str(chunk)], timeout=600)
+    lines = [l for l in a.strip().split("\n") if " | I " in l]
+    ins = [l.split(" | I ")[0].split("in=")[1].strip() for l in lines]
+    rc2, b = lib.sh([DRV, "fcases", ft], stdin="\n".join(ins) + "\n", timeout=600)
+    ml = [l[2:].strip() for l in b.strip().split("\n") if l.startswith("M ")]
+    for l, i, m in zip(lines, ins, ml):
+        impl = l.split(" | I ")[1].split(" | pts=")[0].strip()
+        if impl != m:
+            I, M = parse_fields(impl), parse_fields(m)
+            which = [k for k in ("fe", "entry", "exit", "is", "ip", "isb") if I.get(k) != M.get(k)]
+            hexes = i.split()
+            fl = [lib_float(h) for h in hexes]
+            return {"float_type": ftype_name(ft), "block": blk, "chunk": chunk, "case_in_chunk": int(l.split(" ")[0]),
+                    "input_bits(box min, box max, pos, dir)": hexes, "as_floats": fl,
+                    "implementation(points as double bit patterns)": impl,
+                    "model_at_%s" % ("Float32" if ft == "f" else "Float"): m, "differs_in": which,
+                    "replay_cmd": "%s case %s %s" % (os.path.relpath(binary, lib.VERIF), ft, " ".join(hexes)),
+                    "model_cmd": "echo '%s' | lean/.lake/build/bin/drv_raybox fcases %s" % (i, ft)}
+    return None
+
+
+def lib_float(h):
+    import struct
+    return struct.unpack(">d", bytes.fromhex(h[1:].rjust(16, "0")))[0]
+
 
 def run_sweep(chk, binary):
-    for ft, name in (("d", "double"), ("f", "float")):
+    from concurrent.futures import ThreadPoolExecutor
+
+    def one(ft):
         rc, blocks = lib.sh([binary, "sweep", ft, str(chk.seed), "thorough" if chk.thorough else "quick"], timeout=900)
         rc2, out = lib.sh([DRV, "sweep"], stdin=blocks, timeout=3600)
-        stats, counts, flips = {}, {}, []
+        return rc, blocks, rc2, out
+    with ThreadPoolExecutor(max_workers=2) as ex:      # the two scalar types side by side
+        futs = {ft: ex.submit(one, ft) for ft in ("d", "f")}
+        results = {ft: f.result() for ft, f in futs.items()}
+    for ft, name in (("d", "double"), ("f", "float")):
+        rc, blocks, rc2, out = results[ft]
+        stats, counts, flips, bcounts, tiebad = {}, {}, [], {}, []
         for l in out.split("\n"):
             ws = l.split(" ")
             if ws[0] == "count" and len(ws) == 3:
                 counts[ws[1]] = int(ws[2])
+            elif ws[0] == "blockcount" and len(ws) == 4:
+                bcounts.setdefault(ws[1].split(":", 1)[1], {})[ws[2]] = int(ws[3])
+            elif ws[0] == "tiemismatch" and len(ws) == 4:
+                tiebad.append((ws[1], int(ws[2]), int(ws[3])))
             elif ws[0] == "flip":
                 flips.append(l)
             elif len(ws) == 2 and ws[1].isdigit():
@@ -354,18 +441,85 @@ def run_sweep(chk, binary):
             chk.fail("sweep:%s" % name, "guard-sweep:run:" + name, "guard sweep did not run", {"out": out[-1500:]}, False)
             continue
         chk.count(2 * stats["cases"], stats.get("robustLine", 0) + stats.get("robustRay", 0))
-        chk.residues["guard_sweep_" + name] = dict(stats, flips=counts, eta=("1e-9" if ft == "d" else "1e-4"),
+        flipcounts = {k: v for k, v in counts.items() if not k.startswith("reported-points:")}
+        ptcounts = {k: v for k, v in counts.items() if k.startswith("reported-points:")}
+        chk.residues["guard_sweep_" + name] = dict(stats, flips=flipcounts, eta=("1e-9" if ft == "d" else "1e-4"),
                                                    bound="0 flips of a robust exact answer")
-        chk.extra.setdefault("guard_sweep_flip_counts", {})[name] = counts
+        chk.extra.setdefault("guard_sweep_flip_counts", {})[name] = flipcounts
+        chk.extra.setdefault("guard_sweep_reported_point_classes", {})[name] = ptcounts
         chk.extra.setdefault("guard_branch_hits", {})[name] = {
             k: stats.get(k, 0) for k in ("guardFailAxes", "casesWithGuardFail", "feGuardInside", "feGuardOutside",
-                                         "isFrontSubst", "isBackSkip")}
+                                         "isFrontSubst", "isBackSkip", "zeroDirCases")}
+        # ---- (c1) model executed in floating point == real code, bit for bit, on EVERY sweep case
+        oktie = stats.get("tieChunks", 0) > 0 and stats.get("tieBad", 1) == 0 and not tiebad
+        mt = "Float32" if ft == "f" else "Float"
+        chk.oblige("corr:sweep:model@%s=impl(%s):bit-for-bit(results+points-when-true,all guard arms)" % (mt, name),
+                   "correspondence", oktie, None if oktie else {"chunks": stats.get("tieChunks"), "bad": stats.get("tieBad")})
+        # the guard-fail arms of the model are reached by this tie (hit counts)
+        okarms = all(stats.get(k, 0) > 0 for k in ("feGuardInside", "feGuardOutside", "isFrontSubst", "isBackSkip"))
+        chk.oblige("reach:sweep:%s:guard-fail-arms(fe fall-through, fe return-false, is front:=TMAX, is back-skip)" % name,
+                   "reach", okarms, {k: stats.get(k, 0) for k in ("feGuardInside", "feGuardOutside", "isFrontSubst", "isBackSkip")})
+        chk.count(stats["cases"], stats.get("casesWithGuardFail", 0))
+        if tiebad:
+            tag, blk, chunk = tiebad[0]
+            rep = tie_first_diff(chk, binary, ft, blk, chunk)
+            if rep:
+                rep["mismatching_chunks"] = len(tiebad)
+                rep["block"] = tag
+                fn = "findEntryAndExitPoints" if any(w in ("fe", "entry", "exit") for w in rep["differs_in"]) else "intersects"
+                chk.fail("corr:sweep:model@%s=impl(%s)" % (mt, name),
+                         "sweep-tie:%s:%s:%s:in=%s" % (fn, tag, "+".join(rep["differs_in"]), ",".join(rep["input_bits(box min, box max, pos, dir)"])),
+                         "real code (%s) differs from the proven model executed in floating point (%s) on a guard-sweep input: "
+                         "box [%s]..[%s], pos (%s), dir (%s)" % (name, ", ".join(rep["differs_in"]),
+                             ",".join("%g" % v for v in rep["as_floats"][0:3]), ",".join("%g" % v for v in rep["as_floats"][3:6]),
+                             ",".join("%g" % v for v in rep["as_floats"][6:9]), ",".join("%g" % v for v in rep["as_floats"][9:12])),
+                         rep, True)
+            else:
+                chk.fail("corr:sweep:model@%s=impl(%s)" % (mt, name), "sweep-tie:hash-only:%s" % name,
+                         "sweep chunk hashes differ but no differing case was isolated", {"chunks": tiebad[:8]}, False)
+        # ---- (c3) wrapper
+        okw = stats.get("wrapperDiffers", 1) == 0
+        chk.oblige("sweep:%s:intersects(box,ray)==intersects(box,ray,ip)" % name, "correspondence", okw,
+                   None if okw else {"cases": stats.get("wrapperDiffers")})
+        if not okw:
+            chk.fail("sweep:%s:intersects(box,ray)" % name, "guard-sweep:wrapper-differs:" + name,
+                     "the 2-argument intersects differs from the 3-argument form on %d sweep cases" % stats.get("wrapperDiffers", 0),
+                     {"cases": stats.get("wrapperDiffers")}, False)
+        # ---- (a) flips of robust exact answers
         for ob in SWEEP_OBLIGS:
-            n = sum(v for k, v in counts.items() if k.startswith(ob + ":") or k == ob)
+            n = sum(v for k, v in flipcounts.items() if k.startswith(ob + ":") or k == ob)
             chk.oblige("sweep:%s:%s:never" % (name, ob), "residue", n == 0, None if n == 0 else {"flips": n})
+        # ---- (c2) reported points: in the box and on a face (ip: == pos when the origin is inside)
+        for fn, pts in (("findEntryAndExitPoints", "entry/exit"), ("intersects", "ip")):
+            n = sum(v for k, v in ptcounts.items() if k.startswith("reported-points:%s:" % fn))
+            chk.oblige("sweep:%s:reported-points-in-box-on-surface:%s(%s)" % (name, fn, pts), "residue", n == 0,
+                       {"results_true_examined": stats.get("feTrue" if fn.startswith("find") else "isTrueOutside", 0),
+                        **({"violations": n} if n else {})})
         seen = set()
+        # canonical witness of a reported-point class: its first case in block order with a NON-zero direction, if any
+        nonzero_first = sorted(flips, key=lambda l: l.split(" ")[1].endswith(":zero-direction"))
+        for l in nonzero_first:
+            cat, rep = flip_replay(binary, l)
+            if not cat.startswith("reported-points:"):
+                continue
+            # key: function + point + reason; the guard-failure causes are sub-counts of one finding, but a bad point
+            # WITHOUT a failing guard / overflow (cause other-*) is a different finding and gets its own key
+            cls = ":".join(cat.split(":")[:3])
+            cause = cat.split(":", 3)[3]
+            key = cls + (":" + cause if cause.startswith("other-") else "")
+            if key in seen:
+                continue
+            seen.add(key)
+            rep["count_in_this_sweep_by_cause"] = {k.split(":", 3)[3]: v for k, v in ptcounts.items() if k.startswith(cls + ":")}
+            fn, what = cat.split(":")[1], cat.split(":")[2]
+            chk.fail("sweep:%s:reported-points-in-box-on-surface:%s" % (name, fn), "guard-sweep:" + key,
+                     "%s returns true with %s at %s: box [%s]..[%s], pos (%s), dir (%s) (%d cases in this sweep)" % (
+                         fn, what, name, ",".join(rep["box_min"]), ",".join(rep["box_max"]), ",".join(rep["pos"]),
+                         ",".join(rep["dir"]), sum(rep["count_in_this_sweep_by_cause"].values())), rep, True)
         for l in flips:
             cat, rep = flip_replay(binary, l)
+            if cat.startswith("reported-points:"):
+                continue
             if cat in seen:
                 continue
             seen.add(cat)
@@ -375,6 +529,115 @@ def run_sweep(chk, binary):
                      "%s flips a robust exact answer (%s) at %s: box [%s]..[%s], pos (%s), dir (%s)" % (
                          fn, cat.split(":", 1)[1], name, ",".join(rep["box_min"]), ",".join(rep["box_max"]),
                          ",".join(rep["pos"]), ",".join(rep["dir"])), rep, True)
+        # ---- (c4) pinned per-class counts of the deterministic blocks
+        fixed = {b: c for b, c in bcounts.items() if b.startswith("fixed-")}
+        chk.extra.setdefault("guard_sweep_fixed_block_counts", {})[name] = fixed
+        pins = PINNED.get(name, {})
+        grown, shrunk = [], []
+        for b in sorted(set(fixed) | set(k for k in pins if k != "fixed-huge" or chk.thorough)):
+            for cat in sorted(set(fixed.get(b, {})) | set(pins.get(b, {}))):
+                got, pin = fixed.get(b, {}).get(cat, 0), pins.get(b, {}).get(cat, 0)
+                if got > pin: grown.append((b, cat, pin, got))
+                elif got < pin: shrunk.append((b, cat, pin, got))
+        chk.oblige("sweep:%s:fingerprint(fixed blocks):no-class-count-above-its-pin" % name, "residue", bool(pins) and not grown,
+                   None if (pins and not grown) else {"grown": grown[:8], "pins_present": bool(pins)})
+        if shrunk:
+            chk.extra.setdefault("guard_sweep_counts_below_pin(lower the pins in tools/props/c14.py)", {})[name] = shrunk[:20]
+        for b, cat, pin, got in grown[:4]:
+            ex = [l for l in flips if l.split(" ")[1] == cat and l.split(" ")[2].endswith(":" + b)]
+            rep = flip_replay(binary, ex[0])[1] if ex else {}
+            rep.update({"block": b, "class": cat, "pinned_count": pin, "count_now": got,
+                        "note": "an example of the class in this block (the harness cannot tell which flips are the new ones)"})
+            chk.fail("sweep:%s:fingerprint(fixed blocks)" % name, "pin:%s:%s:%s" % (name, b, cat.replace("findEntryAndExitPoints", "fe").replace("intersects", "is").replace("reported-points:", "pts:")),
+                     "deterministic sweep block %s (%s): class %s has %d cases, pinned %d - the behaviour changed inside a recorded class"
+                     % (b, name, cat, got, pin), rep, bool(ex))
+
+
+# (d) guard lattice at a small TMAX
+SMALL_T = "4"
+SMALL_BOXES = "0,0,0,1,1,1;1,5,-1,2,6,1;0,-1,-1,4,1,1;6,-1,-1,6,1,1;-2,0,-4,-1,2,0;1,0,0,0,1,1"
+SMALL_POS_QUICK = "-6,-1,0,1/2,2,5"
+SMALL_POS_THOROUGH = "-6,-2,-1,0,1/2,1,2,5"
+SMALL_DIRS = "0,1/8,-1/8,1/2,-1/2,1,-1,2,-2"
+ARM_NAMES = (["fe:%s:dir<0-fallback:%s" % (a, o) for a in "xyz" for o in ("return-false", "fall-through")] +
+             ["is:%s:%s:%s" % (a, sg, w) for a in "xyz" for sg in ("dir>0", "dir<0") for w in ("back-update-skipped", "front:=TMAX")] +
+             ["fe:%s:guard-true-through-|dir|>1-alone" % a for a in "xyz"] +
+             ["fe:%s:dir>0-fallback" % a for a in "xyz"])
+
+
+def run_small(chk, binary, pv, name):
+    args = [SMALL_T, SMALL_BOXES, pv, SMALL_DIRS]
+    rc, a = lib.sh([binary, "small"] + args, timeout=1800)
+    rc2, b = lib.sh([DRV, "small"] + args, timeout=3600)
+    impl = [l.split() for l in a.strip().split("\n")] if rc == 0 else []
+    mod = [l.split() for l in b.strip().split("\n")] if rc2 == 0 else []
+    np_, nd_ = len(pv.split(",")), len(SMALL_DIRS.split(","))
+    nblk = len(SMALL_BOXES.split(";")) * np_
+    per = np_ * np_ * nd_ ** 3
+    okshape = len(impl) == nblk and len(mod) == nblk and all(len(y) == 32 for y in mod)
+    bad, nfe, nis, ng, nw, nwc, nu = [], 0, 0, 0, 0, 0, 0
+    arms = [0] * 24
+    if okshape:
+        for i, (x, y) in enumerate(zip(impl, mod)):
+            # x: blk tie nFe nIs nUnwritten ; y: blk tie nFe nIs nGuardDiff nWindowDiff nWindow nUnwritten arms[24]
+            if x[1] != y[1]: bad.append(i)
+            nfe += int(y[2]); nis += int(y[3]); ng += int(y[4]); nw += int(y[5]); nwc += int(y[6]); nu += int(y[7])
+            for k in range(24): arms[k] += int(y[8 + k])
+    ncases = nblk * per
+    chk.oblige("corr:%s:model(Rat,T=4)=impl(Small,max()=4):results+points-when-true:exact" % name, "correspondence",
+               okshape and not bad)
+    okarms = okshape and all(v > 0 for v in arms)
+    chk.oblige("reach:%s:all-18-guard-fail-arms(+|dir|>1-alone,+dir>0-fallback)" % name, "reach", okarms,
+               dict(zip(ARM_NAMES, arms)) if okshape else None)
+    chk.oblige("corr:%s:model=guardpath-oracle(executable form of *_guardpath)" % name, "correspondence", okshape and ng == 0)
+    chk.oblige("corr:%s:model=geometric-oracle-within-|t|<=T(executable form of *_iff_window)" % name, "correspondence",
+               okshape and nw == 0 and nwc > 0)
+    chk.count(ncases, nfe + nis)
+    chk.extra.setdefault("small_T_lattice", {})[name] = {
+        "T": SMALL_T, "boxes": SMALL_BOXES, "pos_values": pv, "dir_values": SMALL_DIRS, "cases": ncases,
+        "findEntryAndExitPoints_true": nfe, "intersects_true": nis, "cases_with_all_guards_passing": nwc,
+        "fe_true_with_entry_and_exit_never_written(model)": nu, "arm_hits": dict(zip(ARM_NAMES, arms)),
+        "mismatching_blocks": len(bad)}
+    if not okshape:
+        chk.fail("corr:%s" % name, "small:run", "small-T lattice run failed", {"harness_rc": rc, "driver_rc": rc2,
+                 "harness_tail": a[-400:], "driver_tail": b[-400:]}, False)
+        return
+    if bad:
+        blk = bad[0]
+        rc3, a3 = lib.sh([binary, "smalllines"] + args + [str(blk)], timeout=600)
+        rc4, b3 = lib.sh([DRV, "smalllines"] + args + [str(blk)], timeout=600)
+        rep = None
+        for xl, yl in zip(a3.strip().split("\n"), b3.strip().split("\n")):
+            head, im = xl.split(" | I ")
+            parts = yl.split(" | ")
+            I, M = parse_fields(im), parse_fields(parts[1][2:])
+            diff = []
+            if I["fe"] != M["fe"]: diff.append("findEntryAndExitPoints:result")
+            elif I["fe"] == "1" and (I["entry"] != M["entry"] or I["exit"] != M["exit"]): diff.append("findEntryAndExitPoints:points")
+            if I["is"] != M["is"]: diff.append("intersects:result")
+            elif I["is"] == "1" and I["ip"] != M["ip"]: diff.append("intersects:ip")
+            if I["isb"] != M["isb"]: diff.append("intersects(box,ray):result")
+            if diff:
+                hd = parse_fields(head.split(" ", 1)[1])
+                rep = {"block": blk, "case_index": int(head.split(" ")[0]), "TMAX(numeric_limits<Small>::max())": SMALL_T,
+                       "box_min_max": hd["box"], "pos": hd["pos"], "dir": hd["dir"], "implementation(Small)": im.strip(),
+                       "model(Rat)": parts[1][2:].strip(), "guardpath_oracle": parts[2][2:].strip(), "differs_in": diff,
+                       "mismatching_blocks": len(bad)}
+                vals = hd["box"].replace(";", ",").split(",") + hd["pos"].split(",") + hd["dir"].split(",")
+                rep["replay_cmd"] = "%s smallcase %s %s" % (os.path.relpath(binary, lib.VERIF), SMALL_T, " ".join(vals))
+                rep["model_cmd"] = "lean/.lake/build/bin/drv_raybox case %s %s" % (SMALL_T, " ".join(vals))
+                break
+        if rep:
+            chk.fail("corr:%s" % name, "small-T:%s:box=%s:pos=%s:dir=%s" % (rep["differs_in"][0], rep["box_min_max"], rep["pos"], rep["dir"]),
+                     "real templates instantiated at a scalar with max() = %s differ from the proven model in %s at box %s, pos %s, dir %s"
+                     % (SMALL_T, ", ".join(rep["differs_in"]), rep["box_min_max"], rep["pos"], rep["dir"]), rep, True)
+        else:
+            chk.fail("corr:%s" % name, "small-T:hash-only", "block hashes differ but no differing case was isolated",
+                     {"blocks": bad[:8]}, False)
+    if ng or nw:
+        chk.fail("corr:%s:model=guardpath-oracle" % name, "small-T:model-vs-guardpath-oracle",
+                 "the model disagrees with the executable form of the _guardpath / _iff_window theorems (model or theorem defect)",
+                 {"guardpath_diffs": ng, "window_diffs": nw}, False)
 
 
 def run(chk):
@@ -382,13 +645,21 @@ def run(chk):
                    "hand model Model/RayBox.lean, tied to ImathBoxAlgo.h by exhaustive lattice correspondence "
                    "(harness/corr/raybox_corr.cpp vs lean/Driver/RayBox.lean), results and points-when-true compared exactly",
                    "spec oracle in Driver/RayBox.lean (exact interval intersection over Rat), written independently of the model",
+                   "Lean's Float / Float32 operations are the machine's IEEE binary64 / binary32 operations (the sweep tie and the "
+                   "non-dyadic lattice compare the model executed at Float with the real code bit for bit)",
+                   "the wrapper scalar `Small` in raybox_corr.cpp (a double with numeric_limits<Small>::max() == 4) through which the "
+                   "real templates are instantiated for the small-T guard lattice",
                    "g++ -O1 -ffp-contract=off and the CPU executing the harness"]
     chk.assumptions = ["theorems are about exact arithmetic over an ordered field with TMAX a parameter; rounding is measured "
                        "(guard sweep), not proved", "Spec/RayBoxSpec.lean states closed-box membership and the guards correctly"]
     chk.rule = ("exhaustive lattice: boxes = (per-axis (min,max) pairs incl. flat and inverted)^3, origins [-2,2]^3, directions "
                 "[-2,2]^3 minus 0, translated/scaled by a VERIF_SEED-chosen integer offset and power of two; non-trivial = results "
                 "that are true.  Non-dyadic lattice: directions {0,+-1,+-3,+-5,+-7}^3 minus 0, integer origins/boxes, deterministic; "
-                "model executed at Float/Float32 and compared bit for bit.  Guard sweep: 11^3-1 extreme directions x <=125 origins x boxes; non-trivial = robust exact answers")
+                "model executed at Float/Float32 and compared bit for bit; reported points measured against the exact points.  "
+                "Small-T lattice: real templates at a scalar with max() = 4, 6 boxes x origins {-6..5}^3 x directions {0,+-1/8,+-1/2,+-1,+-2}^3, "
+                "exact; non-trivial = true results; all 18 guard-fail arms have obliged hit counts.  Guard sweep: 11^3 extreme directions "
+                "(zero direction included) x <=125 origins x boxes; non-trivial = robust exact answers (oracle part), cases with a failing "
+                "guard (model@Float tie part); per-class counts of the deterministic blocks pinned")
     okd, out = build_driver()
     chk.oblige("build:drv_raybox", "build", okd, None if okd else out[-800:])
     ok, binary, o = lib.cxx_build("raybox_corr", ["corr/raybox_corr.cpp"])
@@ -432,7 +703,12 @@ def run(chk):
     if not okd:
         chk.fail("build:drv_raybox", "build:drv_raybox", "model driver does not build", {"output": out[-3000:]}, False)
         return
+    import time
+    t_ = [time.time()]
+    def stage(nm):
+        t_.append(time.time()); chk.extra.setdefault("stage_wall_s", {})[nm] = round(t_[-1] - t_[-2], 1)
     run_lattice(chk, binary, QUICK_PAIRS, off, "lattice-quick")
+    stage("lattice-quick")
     if chk.thorough:
         off2 = [chk.rng.randint(-3, 3), chk.rng.randint(-3, 3), chk.rng.randint(-3, 3), chk.rng.randint(-1, 2)]
         run_lattice(chk, binary, THOROUGH_PAIRS, off2, "lattice-thorough")
@@ -443,7 +719,11 @@ def run(chk):
         run_nd(chk, binary, ND_QUICK_BOXES, 4, [chk.rng.randint(-9, 9), chk.rng.randint(-9, 9), chk.rng.randint(-9, 9)],
                "nondyadic-seeded-offset")
     chk.exhaustive = True
+    stage("lattice-thorough+nondyadic")
+    run_small(chk, binary, SMALL_POS_THOROUGH if chk.thorough else SMALL_POS_QUICK, "small-T-lattice")
+    stage("small-T-lattice")
     run_sweep(chk, binary)
+    stage("guard-sweep(double+float)")
     # samples: grazing an edge, flat box, axis-parallel ray, empty box
     for desc, vals in (("skew ray grazing the edge x=y=0..1 of the unit cube", "0 0 0 1 1 1 -1 -1 1/2 2 2 -1/4"),
                        ("flat box hit edge-on", "0 0 0 0 1 1 -1 1/2 1/2 1 0 0"),
@@ -453,3 +733,144 @@ def run(chk):
         rc2, m = lib.sh([DRV, "case", "double"] + vals.split(), timeout=60)
         chk.sample({"input(box min, box max, pos, dir)": vals, "note": desc, "implementation": r.split("\n")[0],
                     "spec_exact": (m.split("\n") + ["", ""])[1]})
+
+
+def _pins():
+    """Print the PINNED table from the current tree (deterministic blocks of the thorough sweep, both types)."""
+    import json
+    binary = os.path.join(lib.VERIF, ".build", "bin", "raybox_corr")
+    res = {}
+    for ft, name in (("d", "double"), ("f", "float")):
+        rc, blocks = lib.sh([binary, "sweep", ft, "1", "thorough"], timeout=900)
+        rc2, out = lib.sh([DRV, "sweep"], stdin=blocks, timeout=3600)
+        for l in out.split("\n"):
+            ws = l.split(" ")
+            if ws[0] == "blockcount" and ws[1].split(":", 1)[1].startswith("fixed-"):
+                res.setdefault(name, {}).setdefault(ws[1].split(":", 1)[1], {})[ws[2]] = int(ws[3])
+    print("PINNED = " + json.dumps(res, indent=1, sort_keys=True))
+
+
+# --- generated by `PYTHONPATH=tools python3 tools/props/c14.py` on the tree of 2026-09-26 (after /repo 16a5ca8) ---
+# PINNED-BEGIN
+PINNED = {
+ "double": {
+  "fixed-halfinfinite": {
+   "findEntryAndExitPoints:hit-to-miss:all-components-fail-guard:t-gt-TMAX": 2,
+   "findEntryAndExitPoints:hit-to-miss:box-face-at-TMAX:t-le-TMAX": 20,
+   "intersects:miss-to-hit:all-components-fail-guard": 64,
+   "intersects:miss-to-hit:box-face-at-TMAX": 160,
+   "reported-points:findEntryAndExitPoints:entry-never-written:all-components-fail-guard": 702,
+   "reported-points:findEntryAndExitPoints:entry-never-written:box-face-at-TMAX": 972,
+   "reported-points:findEntryAndExitPoints:entry-never-written:zero-direction": 27,
+   "reported-points:findEntryAndExitPoints:exit-never-written:all-components-fail-guard": 702,
+   "reported-points:findEntryAndExitPoints:exit-never-written:box-face-at-TMAX": 972,
+   "reported-points:findEntryAndExitPoints:exit-never-written:zero-direction": 27
+  },
+  "fixed-huge": {
+   "findEntryAndExitPoints:hit-to-miss:all-components-fail-guard:t-gt-TMAX": 60,
+   "intersects:miss-to-hit:all-components-fail-guard": 228,
+   "reported-points:findEntryAndExitPoints:entry-never-written:all-components-fail-guard": 702,
+   "reported-points:findEntryAndExitPoints:entry-never-written:zero-direction": 27,
+   "reported-points:findEntryAndExitPoints:exit-never-written:all-components-fail-guard": 702,
+   "reported-points:findEntryAndExitPoints:exit-never-written:zero-direction": 27
+  },
+  "fixed-infinite": {
+   "reported-points:findEntryAndExitPoints:entry-never-written:all-components-fail-guard": 702,
+   "reported-points:findEntryAndExitPoints:entry-never-written:box-face-at-TMAX": 604,
+   "reported-points:findEntryAndExitPoints:entry-never-written:face-minus-pos-overflows": 14292,
+   "reported-points:findEntryAndExitPoints:entry-never-written:zero-direction": 27,
+   "reported-points:findEntryAndExitPoints:exit-never-written:all-components-fail-guard": 702,
+   "reported-points:findEntryAndExitPoints:exit-never-written:box-face-at-TMAX": 604,
+   "reported-points:findEntryAndExitPoints:exit-never-written:face-minus-pos-overflows": 14292,
+   "reported-points:findEntryAndExitPoints:exit-never-written:zero-direction": 27
+  },
+  "fixed-offcentre": {
+   "findEntryAndExitPoints:hit-to-miss:all-components-fail-guard:t-gt-TMAX": 52,
+   "intersects:miss-to-hit:all-components-fail-guard": 168,
+   "reported-points:findEntryAndExitPoints:entry-never-written:all-components-fail-guard": 702,
+   "reported-points:findEntryAndExitPoints:entry-never-written:zero-direction": 27,
+   "reported-points:findEntryAndExitPoints:exit-never-written:all-components-fail-guard": 702,
+   "reported-points:findEntryAndExitPoints:exit-never-written:zero-direction": 27
+  },
+  "fixed-ordinary": {
+   "findEntryAndExitPoints:hit-to-miss:all-components-fail-guard:t-gt-TMAX": 76,
+   "intersects:miss-to-hit:all-components-fail-guard": 188,
+   "reported-points:findEntryAndExitPoints:entry-never-written:all-components-fail-guard": 702,
+   "reported-points:findEntryAndExitPoints:entry-never-written:zero-direction": 27,
+   "reported-points:findEntryAndExitPoints:exit-never-written:all-components-fail-guard": 702,
+   "reported-points:findEntryAndExitPoints:exit-never-written:zero-direction": 27
+  },
+  "fixed-overflow": {
+   "findEntryAndExitPoints:hit-to-miss:all-components-fail-guard:t-gt-TMAX": 4,
+   "findEntryAndExitPoints:hit-to-miss:face-minus-pos-overflows": 118,
+   "findEntryAndExitPoints:miss-to-hit:face-minus-pos-overflows": 6,
+   "intersects:hit-to-miss:face-minus-pos-overflows": 39,
+   "intersects:miss-to-hit:all-components-fail-guard": 22,
+   "intersects:miss-to-hit:face-minus-pos-overflows": 37,
+   "reported-points:findEntryAndExitPoints:entry-never-written:face-minus-pos-overflows": 18,
+   "reported-points:findEntryAndExitPoints:exit-never-written:face-minus-pos-overflows": 18
+  }
+ },
+ "float": {
+  "fixed-halfinfinite": {
+   "findEntryAndExitPoints:hit-to-miss:all-components-fail-guard:t-gt-TMAX": 2,
+   "findEntryAndExitPoints:hit-to-miss:box-face-at-TMAX:t-le-TMAX": 20,
+   "intersects:miss-to-hit:all-components-fail-guard": 64,
+   "intersects:miss-to-hit:box-face-at-TMAX": 160,
+   "reported-points:findEntryAndExitPoints:entry-never-written:all-components-fail-guard": 702,
+   "reported-points:findEntryAndExitPoints:entry-never-written:box-face-at-TMAX": 972,
+   "reported-points:findEntryAndExitPoints:entry-never-written:zero-direction": 27,
+   "reported-points:findEntryAndExitPoints:exit-never-written:all-components-fail-guard": 702,
+   "reported-points:findEntryAndExitPoints:exit-never-written:box-face-at-TMAX": 972,
+   "reported-points:findEntryAndExitPoints:exit-never-written:zero-direction": 27
+  },
+  "fixed-huge": {
+   "findEntryAndExitPoints:hit-to-miss:all-components-fail-guard:t-gt-TMAX": 164,
+   "intersects:miss-to-hit:all-components-fail-guard": 768,
+   "reported-points:findEntryAndExitPoints:entry-never-written:all-components-fail-guard": 1998,
+   "reported-points:findEntryAndExitPoints:entry-never-written:zero-direction": 27,
+   "reported-points:findEntryAndExitPoints:exit-never-written:all-components-fail-guard": 1998,
+   "reported-points:findEntryAndExitPoints:exit-never-written:zero-direction": 27
+  },
+  "fixed-infinite": {
+   "reported-points:findEntryAndExitPoints:entry-never-written:all-components-fail-guard": 702,
+   "reported-points:findEntryAndExitPoints:entry-never-written:box-face-at-TMAX": 604,
+   "reported-points:findEntryAndExitPoints:entry-never-written:face-minus-pos-overflows": 14292,
+   "reported-points:findEntryAndExitPoints:entry-never-written:zero-direction": 27,
+   "reported-points:findEntryAndExitPoints:exit-never-written:all-components-fail-guard": 702,
+   "reported-points:findEntryAndExitPoints:exit-never-written:box-face-at-TMAX": 604,
+   "reported-points:findEntryAndExitPoints:exit-never-written:face-minus-pos-overflows": 14292,
+   "reported-points:findEntryAndExitPoints:exit-never-written:zero-direction": 27
+  },
+  "fixed-offcentre": {
+   "findEntryAndExitPoints:hit-to-miss:all-components-fail-guard:t-gt-TMAX": 52,
+   "intersects:miss-to-hit:all-components-fail-guard": 168,
+   "reported-points:findEntryAndExitPoints:entry-never-written:all-components-fail-guard": 702,
+   "reported-points:findEntryAndExitPoints:entry-never-written:zero-direction": 27,
+   "reported-points:findEntryAndExitPoints:exit-never-written:all-components-fail-guard": 702,
+   "reported-points:findEntryAndExitPoints:exit-never-written:zero-direction": 27
+  },
+  "fixed-ordinary": {
+   "findEntryAndExitPoints:hit-to-miss:all-components-fail-guard:t-gt-TMAX": 76,
+   "intersects:miss-to-hit:all-components-fail-guard": 188,
+   "reported-points:findEntryAndExitPoints:entry-never-written:all-components-fail-guard": 702,
+   "reported-points:findEntryAndExitPoints:entry-never-written:zero-direction": 27,
+   "reported-points:findEntryAndExitPoints:exit-never-written:all-components-fail-guard": 702,
+   "reported-points:findEntryAndExitPoints:exit-never-written:zero-direction": 27
+  },
+  "fixed-overflow": {
+   "findEntryAndExitPoints:hit-to-miss:all-components-fail-guard:t-gt-TMAX": 4,
+   "findEntryAndExitPoints:hit-to-miss:face-minus-pos-overflows": 150,
+   "findEntryAndExitPoints:miss-to-hit:face-minus-pos-overflows": 12,
+   "intersects:hit-to-miss:face-minus-pos-overflows": 55,
+   "intersects:miss-to-hit:all-components-fail-guard": 22,
+   "intersects:miss-to-hit:face-minus-pos-overflows": 40,
+   "reported-points:findEntryAndExitPoints:entry-never-written:face-minus-pos-overflows": 18,
+   "reported-points:findEntryAndExitPoints:exit-never-written:face-minus-pos-overflows": 18
+  }
+ }
+}
+# PINNED-END
+
+if __name__ == "__main__":
+    _pins()
